@@ -68,6 +68,9 @@ def run(ctx):
         spec = G.gen_lang(rng, max_base=5, max_ops=3, max_arity=3)
         ops = spec.build()
         canon = G.gen_canon(rng, spec, max_items=3, depth=2 if ctx.tier == "quick" else 3)
+        ncanon = len(canon)
+        canon = G.bound_canon(spec, canon)       # depth-3 types whose closure would run to millions of types are not listed
+        ctx.count("canon_items_dropped_for_size", ncanon - len(canon))
         itop, ibot = rng.random() < 0.4, rng.random() < 0.3
         lang = G.build_language(spec, ops, canon=canon, include_top=itop, include_bottom=ibot)
         ctx.setup(spec.sexp(), "ok T")
